@@ -293,6 +293,18 @@ def r2_probe_and_budget(ctx):
                 txt = json.dumps([probe.blocks[x]["s"] for x in probe.reach(tgt)])
                 if "StackOverflow" in txt and '"variant": "Err"' in txt:
                     shape = True
+    cmp_blocks = [b for b in sorted(probe.live) if probe.blocks[b]["t"]["k"] == "switch" and probe.switch_info(b)["kind"] == "bin" and probe.switch_info(b)["op"] in ("Gt", "Ge")]
+    if shape and cmp_blocks:
+        # the comparison is made on every call: no path from entry to a return goes round it (sampling the probe - every
+        # n-th call, only for some callers - lets the stack grow unmeasured in between)
+        r = probe.reach([0], removed_nodes=cmp_blocks)
+        if r & set(probe.exits()):
+            ctx.bad("probe|conditional", probe.where(cmp_blocks[0]), "check_stack can return without comparing the stack distance with the budget (the probe is sampled / skipped on some path): between two real probes the native stack grows unmeasured, by more than the margin above the budget when the program nests blocks or calls in between")
+        else:
+            ctx.ok("probe|unconditional", probe.where(cmp_blocks[0]), "every call of check_stack makes the comparison")
+        own_state = sorted({e.get("f") for b in sorted(probe.live) for st in probe.blocks[b]["s"] for e in st["lhs"]["p"] if isinstance(e, dict) and "f" in e})
+        if own_state:
+            ctx.bad("probe|writes-state|%s" % ",".join(own_state), probe.where(), "check_stack updates interpreter state (%s): its verdict depends on the history of calls, not only on the current depth" % own_state)
     if shape:
         ctx.ok("probe|distance-from-base", probe.where(), "stack_base - &local > %s -> Err(StackOverflow)" % K)
     else:
